@@ -391,7 +391,29 @@ def native(chk):
     return exe
 
 
-TOKS = None
+def native_stage(chk, pid):
+    exe = native(chk)
+    tier = chk.tier
+    n = 3000 if tier == "quick" else 200000
+    rc, o, e, secs = hv.run([exe, "sweep", str(chk.seed), str(n)] + (["big"] if tier == "thorough" else []), timeout=3000)
+    try:
+        sw = json.loads(o)
+    except Exception:
+        raise hv.Infra("native assembler sweep failed: " + (o + e)[-800:])
+    first5, first17 = sw.pop("first_c05", ""), sw.pop("first_c17", "")
+    sw["stage"] = "real hexasm Lexer/Parser/CodeGen on random programs around the encoding-length boundaries; image decoded with the ISA rule; listing compared with the bytes"
+    sw["secs"] = round(secs, 1)
+    chk.native.append(sw)
+    mine = (sw["bad_layout_or_reference"], first5, sw.get("why_c05")) if pid == "C05" else (sw["bad_layout_or_reference"] + sw["bad_listing_only"], first17 or first5, sw.get("why_c17") or sw.get("why_c05"))
+    if mine[0]:
+        f = os.path.join(hv.OUTROOT, "replay", "%s-native-sweep.S" % pid)
+        open(f, "w").write(mine[1])
+        chk.add_violation("native-sweep", f, mine[2], True)
+    return exe
+
+
+def native_only(chk):
+    native_stage(chk, chk.pid)
 
 
 def cex_to_asm(cex, token_names):
@@ -485,22 +507,7 @@ def main(chk, replay_file, pid=PID):
         jobs = [j for j in jobs if j.name.startswith(("emit.", "header.", "pass.chain", "fixedpoint"))]
     chk.jobs = jobs
     hv.run_jobs(jobs, chk.out)
-    exe = native(chk)
-    n = 3000 if tier == "quick" else 200000
-    rc, o, e, secs = hv.run([exe, "sweep", str(chk.seed), str(n)] + (["big"] if tier == "thorough" else []), timeout=3000)
-    try:
-        sw = json.loads(o)
-    except Exception:
-        raise hv.Infra("native assembler sweep failed: " + (o + e)[-800:])
-    first5, first17 = sw.pop("first_c05", ""), sw.pop("first_c17", "")
-    sw["stage"] = "real hexasm Lexer/Parser/CodeGen on random programs around the encoding-length boundaries; image decoded with the ISA rule; listing compared with the bytes"
-    sw["secs"] = round(secs, 1)
-    chk.native.append(sw)
-    mine = (sw["bad_layout_or_reference"], first5, sw.get("why_c05")) if pid == "C05" else (sw["bad_layout_or_reference"] + sw["bad_listing_only"], first17 or first5, sw.get("why_c17") or sw.get("why_c05"))
-    if mine[0]:
-        f = os.path.join(hv.OUTROOT, "replay", "%s-native-sweep.S" % pid)
-        open(f, "w").write(mine[1])
-        chk.add_violation("native-sweep", f, mine[2], True)
+    exe = native_stage(chk, pid)
 
     failed_prop, failed_aux, failed_bounded = [], [], []
     for j in jobs:
